@@ -46,21 +46,61 @@ def rng_state(g):
     return (s['state']['state'], s['state']['inc'], s.get('has_uint32'), s.get('uinteger'))
 
 
+def same_stream(a, b):
+    """two Generator objects that draw from one stream: the same object, or wrappers of one BitGenerator"""
+    return a is b or a.bit_generator is b.bit_generator
+
+
 def classes(seq):
     """first-occurrence labels of a sequence of hashables"""
     seen = {}
     return [seen.setdefault(x, len(seen)) for x in seq]
 
 
+_PATCHED = []
+CDRAW_STRIDE = 10 ** 15 + 37     # the model's count for one number drawn by the caller (keeps stream positions apart)
+
+
+def patch_make_noise():
+    """record, at class level (the constructor already calls it), the generator state `_make_noise` draws from and the
+    parameters it uses: the observable behind the model's `noise=` / `npar=`"""
+    import hcipy
+    cls = hcipy.FiniteAtmosphericLayer
+    if _PATCHED and _PATCHED[0] is cls:
+        return
+    orig = cls._make_noise
+
+    def _make_noise(self):
+        self._verif_noise = (rng_state(self.rng), float(self.Cn_squared), float(self.L0))
+        self._verif_draws = getattr(self, '_verif_draws', 0) + 1
+        return orig(self)
+    cls._make_noise = _make_noise
+    _PATCHED[:] = [cls]
+
+
 def make_layer(case, cn2=None, grid=None, vel=None, L0=None):
     import hcipy
+    patch_make_noise()
     g = grid if grid is not None else mkgrid(case['nx'], case['ny'], case['dx'], case['dy'])
     v = np.array(case['vel'] if vel is None else vel, dtype=float)
     c = case['cn2'] if cn2 is None else cn2
     l0 = case['L0'] if L0 is None else L0
+    seed = case['seed']
+    gen = None
+    if case.get('seedobj') == 'bitgen':
+        # the caller passes a BitGenerator and keeps drawing from it through its own Generator
+        seed = np.random.PCG64(case['seed'])
+        gen = np.random.Generator(seed)
+    elif case.get('seedobj'):
+        # the caller passes a Generator object and keeps it (ops ['cdraw', n] draw from it)
+        seed = gen = np.random.default_rng(case['seed'])
     if case['kind'] == 'finite':
-        return hcipy.FiniteAtmosphericLayer(g, c, l0, v, seed=case['seed'])
-    return hcipy.InfiniteAtmosphericLayer(g, c, l0, v, use_interpolation=bool(case['interp']), seed=case['seed'])
+        layer = hcipy.FiniteAtmosphericLayer(g, c, l0, v, seed=seed)
+    else:
+        layer = hcipy.InfiniteAtmosphericLayer(g, c, l0, v, use_interpolation=bool(case['interp']), seed=seed)
+    layer._verif_gen = gen
+    layer._verif_shared = gen is not None and same_stream(layer._original_rng, gen)
+    return layer
 
 
 # ---------------------------------------------------------------------------------------------
@@ -70,7 +110,8 @@ SET_OPS = ('setcn2', 'setcn2m', 'setl0', 'setvel')
 
 
 def run_layer(case, layer, k=1.0):
-    """ops: ['evolve', t] | ['sett', t] | ['reset', indep] | ['read', wavelength] |
+    """ops: ['evolve', t] | ['sett', t] | ['reset', indep] | ['reset', False, 'none'] (infinite layer: evolve_until(None)) |
+    ['read', wavelength] |
     ['setcn2', c] | ['setcn2m', total] (through MultiLayerAtmosphere.Cn_squared) | ['setvel', [vx, vy]] |
     ['setl0', l, route] with route 'L0' (layer.L0 = l), 'outer_scale' (layer.outer_scale = l) or 'multi'
     (MultiLayerAtmosphere.outer_scale = l).
@@ -80,22 +121,42 @@ def run_layer(case, layer, k=1.0):
     if case['kind'] == 'infinite':
         orig_extrude = layer._extrude
 
+        arcap = []
+
         def rec(where=None):
             ext.append(where)
-            return orig_extrude(where)
+            if not case.get('ar') or len(arcap) >= 3 or k != 1.0:
+                return orig_extrude(where)
+            # numeric data of this extrusion, for the model's `arExtrude` (the normals: same state, same call)
+            horizontal = where in ('left', 'right')
+            A, B = (layer.A_horizontal, layer.B_horizontal) if horizontal else (layer.A_vertical, layer.B_vertical)
+            stencil = layer.stencil_left if horizontal else layer.stencil_bottom
+            cap = {'w': where, 'before': np.array(layer._achromatic_screen, dtype=float), 'A': np.array(A), 'B': np.array(B),
+                   'idx': [int(i) for i in np.flatnonzero(stencil)], 'amp': float(np.sqrt(layer._Cn_squared)),
+                   'rnd': copy.deepcopy(layer.rng).normal(0, 1, size=B.shape[1])}
+            r = orig_extrude(where)
+            cap['after'] = np.array(layer._achromatic_screen, dtype=float)
+            arcap.append(cap)
+            arnew.append(cap)
+            return r
         layer._extrude = rec
     atm = None
     obs = []
+    arnew = []
     for op in case['ops']:
         o = {'op': op, 'status': 'ok'}
         del ext[:]
+        del arnew[:]
         try:
             if op[0] == 'evolve':
                 layer.evolve_until(op[1])
             elif op[0] == 'sett':
                 layer.t = op[1]
             elif op[0] == 'reset':
-                layer.reset(make_independent_realization=bool(op[1]))
+                if len(op) > 2 and op[2] == 'none':
+                    layer.evolve_until(None)        # infinite layer: documented nowhere, implemented as reset()
+                else:
+                    layer.reset(make_independent_realization=bool(op[1]))
             elif op[0] == 'read':
                 o['phase'] = np.array(layer.phase_for(op[1]).shaped, dtype=float)
                 o['phase1'] = np.array(layer.phase_for(1).shaped, dtype=float)
@@ -119,6 +180,8 @@ def run_layer(case, layer, k=1.0):
                     atm.outer_scale = op[1]
             elif op[0] == 'setvel':
                 layer.velocity = np.array(op[1], dtype=float)
+            elif op[0] == 'cdraw':
+                layer._verif_gen.normal(size=int(op[1]))
             else:
                 raise MachineryError('unknown op %r' % (op,))
         except ValueError:
@@ -132,9 +195,20 @@ def run_layer(case, layer, k=1.0):
         o['rng'] = rng_state(layer.rng)
         o['orig'] = rng_state(layer._original_rng)
         o['ext'] = list(ext)
+        o['ar'] = list(arnew)
         o['cn2'] = float(layer.Cn_squared)
         o['L0'] = float(layer.L0)
         o['vel'] = [float(x) for x in np.asarray(layer.velocity).ravel()]
+        gen = getattr(layer, '_verif_gen', None)
+        o['caller'] = rng_state(gen) if gen is not None else None
+        o['shared'] = bool(getattr(layer, '_verif_shared', False))
+        o['al'] = '%d%d%d' % (same_stream(layer.rng, layer._original_rng), gen is not None and same_stream(layer._original_rng, gen),
+                              gen is not None and same_stream(layer.rng, gen))
+        if case['kind'] == 'finite':
+            o['noise'] = layer._verif_noise
+            o['draws'] = layer._verif_draws
+            o['valid'] = layer._noise is not None
+            o['cache'] = layer._achromatic_screen is not None
         if case['kind'] == 'infinite' and not (op[0] in ('evolve', 'sett') and len(op) > 2 and op[2] == 'q'):
             o['raw'] = np.array(layer._achromatic_screen, dtype=float)
         obs.append(o)
@@ -152,8 +226,13 @@ class Oracle:
         self.pre = 'fin' if self.kind == 'finite' else 'inf'
         self.counts = {}
         self._fresh = {}
+        self.cdrawn = False
 
     def fail(self, clause, what):
+        if self.cdrawn:
+            # everything that goes wrong after the caller drew from the Generator it passed as seed is one finding
+            what = 'the caller passed a Generator object as seed and drew from it afterwards; then [%s] %s' % (clause, what)
+            clause = 'caller-generator'
         key = '%s-%s' % (self.pre, clause)
         if not any(k == key for k, _ in self.bad):
             self.bad.append((key, what))
@@ -211,6 +290,7 @@ class Oracle:
         seq = []          # evolve times since the last reset
         seen = {}         # (realisation, seq, L0, velocity) -> [(Cn^2, screen)]
         seg_reads = []    # reads of the current segment: (clock, phase1)
+        moved_since_set = True   # finite layer: an evolve_until happened after the last parameter change
         where = '%s %s wind' % (self.shape_class(), self.wind_class())
         for i, o in enumerate(obs):
             op = o['op']
@@ -225,6 +305,10 @@ class Oracle:
                         return
                     clock = float(op[1])
                     seq.append(clock)
+                    moved_since_set = True
+            elif op[0] == 'cdraw':
+                self.cdrawn = True
+                self.cnt('caller draws from its generator')
             elif op[0] == 'reset':
                 if o['status'] != 'ok':
                     self.fail('raises', 'reset raised %s' % o['status'])
@@ -255,6 +339,7 @@ class Oracle:
                         self.fail('setter', 'MultiLayerAtmosphere.Cn_squared = %r did not rescale the layer in proportion (got %r)' % (op[1], o['cn2']))
                     other_c = other_c * op[1] / total
                 cur = want
+                moved_since_set = False
                 self.cnt('setter %s' % op[0])
             if o['t'] != clock:
                 self.fail('clock', 'after %r the layer reports t=%r, expected %r' % (op, o['t'], clock))
@@ -263,9 +348,28 @@ class Oracle:
             if o['status'] != 'ok':
                 self.fail('raises', 'phase_for raised %s on a %s layer' % (o['status'], where))
                 return
+            pend = False
             if cur != par:
-                self.cnt('read with a parameter change pending (not judged)')
-                continue
+                if self.kind == 'finite' and moved_since_set and real == 0:
+                    # a parameter was changed on the running layer and the layer was evolved since: the finite layer
+                    # re-draws the same realisation with the new parameters without rewinding, so it shows what a layer
+                    # freshly built with the current parameters shows at this time
+                    ref = self.fresh_screen(seq, cur)
+                    if not np.array_equal(ref, o['phase1']):
+                        self.fail('live-setter', 'after a parameter change on the running layer (no reset) and evolve_until(%r) the screen '
+                                  'differs from the screen of a freshly built layer with the same seed and the current parameters at that '
+                                  'time (max dev %.3g)' % (clock, np.abs(ref - o['phase1']).max()))
+                    self.cnt('read after a live parameter change vs fresh layer')
+                    continue
+                elif self.kind == 'infinite' and cur[2] == par[2]:
+                    # Cn^2 / L0 changed on the running infinite layer: the screen stays, later rows/columns use the new
+                    # values.  No fresh-layer reference exists, but the screen still moves rigidly, scales with 1/lambda,
+                    # and the twin layer (k^2 Cn^2 throughout, same changes) shows k times the phase.
+                    pend = True
+                    self.cnt('read with a live parameter change on the infinite layer (translation, 1/lambda, strength judged)')
+                else:
+                    self.cnt('read with a parameter change pending (not judged)')
+                    continue
             lam = float(op[1])
             s1 = o['phase1']
             scale = max(float(np.abs(s1).max()), 1e-300)
@@ -279,40 +383,41 @@ class Oracle:
                 if np.abs(tw - k * s1).max() > TOL * k * scale:
                     self.fail('strength', 'layer with %g x Cn^2 is not %g x the phase (max dev %.3g of %.3g)' % (
                         k * k, k, np.abs(tw - k * s1).max(), scale))
-            # --- replay: same realisation + same parameters + same sequence of times => the same screen, bit for bit;
-            #     the same with another Cn^2 => the screen times sqrt(Cn^2 ratio)
-            seqkey = tuple(seq) if self.kind == 'infinite' else (clock,)
-            if real == 0:
-                ref = self.fresh_screen(seq, par)
-                if not np.array_equal(ref, s1):
-                    nres = sum(1 for q in obs[:i] if q['op'][0] == 'reset')
-                    nset = sum(1 for q in obs[:i] if q['op'][0] in SET_OPS)
-                    self.fail('replay-after-setter' if nset else 'replay',
-                              'screen at t=%r after %d reset(s) and %d parameter change(s) differs from the screen of a freshly built '
-                              'layer with the same seed and the current parameters at that time (max dev %.3g of %.3g)' % (
-                                  clock, nres, nset, np.abs(ref - s1).max(), scale))
-                self.cnt('replay vs fresh layer')
-            key = (real, seqkey, par[1], par[2])
-            fresh_key = True
-            for (c0, scr) in seen.get(key, []):
-                fresh_key = False
-                if c0 == par[0]:
-                    if not np.array_equal(scr, s1):
-                        self.fail('replay', 'same realisation, same evolution times %r, different screen' % (seqkey[-3:],))
-                    self.cnt('replay vs earlier run')
-                    break
-                r = np.sqrt(par[0] / c0)
-                if np.abs(s1 - r * scr).max() > TOL * scale:
-                    self.fail('strength-setter', 'after Cn_squared was changed from %r to %r and reset(), the replayed screen at t=%r is not '
-                              'sqrt(ratio) = %.6g times the earlier one (max dev %.3g of %.3g)' % (c0, par[0], clock, r, np.abs(s1 - r * scr).max(), scale))
-                self.cnt('sqrt(Cn^2 new / Cn^2 old) vs earlier run')
-            else:
-                if fresh_key:
-                    for (r2, s2, l2, v2), lst in seen.items():
-                        if r2 != real and s2 == seqkey and l2 == par[1] and v2 == par[2] and any(
-                                c0 == par[0] and np.abs(scr - s1).max() < 1e-3 * scale for c0, scr in lst):
-                            self.fail('independent', 'reset(make_independent_realization=True) reproduced the previous realisation')
-                seen.setdefault(key, []).append((par[0], s1))
+            if not pend:
+                # --- replay: same realisation + same parameters + same sequence of times => the same screen, bit for bit;
+                #     the same with another Cn^2 => the screen times sqrt(Cn^2 ratio)
+                seqkey = tuple(seq) if self.kind == 'infinite' else (clock,)
+                if real == 0:
+                    ref = self.fresh_screen(seq, par)
+                    if not np.array_equal(ref, s1):
+                        nres = sum(1 for q in obs[:i] if q['op'][0] == 'reset')
+                        nset = sum(1 for q in obs[:i] if q['op'][0] in SET_OPS)
+                        self.fail('replay-after-setter' if nset else 'replay',
+                                  'screen at t=%r after %d reset(s) and %d parameter change(s) differs from the screen of a freshly built '
+                                  'layer with the same seed and the current parameters at that time (max dev %.3g of %.3g)' % (
+                                      clock, nres, nset, np.abs(ref - s1).max(), scale))
+                    self.cnt('replay vs fresh layer')
+                key = (real, seqkey, par[1], par[2])
+                fresh_key = True
+                for (c0, scr) in seen.get(key, []):
+                    fresh_key = False
+                    if c0 == par[0]:
+                        if not np.array_equal(scr, s1):
+                            self.fail('replay', 'same realisation, same evolution times %r, different screen' % (seqkey[-3:],))
+                        self.cnt('replay vs earlier run')
+                        break
+                    r = np.sqrt(par[0] / c0)
+                    if np.abs(s1 - r * scr).max() > TOL * scale:
+                        self.fail('strength-setter', 'after Cn_squared was changed from %r to %r and reset(), the replayed screen at t=%r is not '
+                                  'sqrt(ratio) = %.6g times the earlier one (max dev %.3g of %.3g)' % (c0, par[0], clock, r, np.abs(s1 - r * scr).max(), scale))
+                    self.cnt('sqrt(Cn^2 new / Cn^2 old) vs earlier run')
+                else:
+                    if fresh_key:
+                        for (r2, s2, l2, v2), lst in seen.items():
+                            if r2 != real and s2 == seqkey and l2 == par[1] and v2 == par[2] and any(
+                                    c0 == par[0] and np.abs(scr - s1).max() < 1e-3 * scale for c0, scr in lst):
+                                self.fail('independent', 'reset(make_independent_realization=True) reproduced the previous realisation')
+                    seen.setdefault(key, []).append((par[0], s1))
             # --- rigid translation with the wind
             cx, cy = vx * clock, vy * clock
             pairs = []
@@ -403,15 +508,20 @@ def judge(case):
 # ---------------------------------------------------------------------------------------------
 # model side of a layer history
 
-def layer_lines(case, obs):
-    p = 'C15 fin' if case['kind'] == 'finite' else 'C15 inf'
+def layer_lines(case, obs, layer=None):
+    heap = bool(case.get('heap'))
+    p = ('C15 hfin' if heap else 'C15 fin') if case['kind'] == 'finite' else ('C15 hinf' if heap else 'C15 inf')
+    kind = ''
+    if heap:
+        # which constructor ran is observed (`_original_rng is gen`), like the value a float setter ended up with
+        kind = ' int' if not case.get('seedobj') else ' genshared' if obs and obs[0].get('shared') else ' gen'
     if case['kind'] == 'finite':
-        lines = ['%s new %d %d %s %s %s %s %d' % (p, case['nx'], case['ny'], rat(case['vel'][0]), rat(case['vel'][1]),
-                                                 rat(case['cn2']), rat(case['L0']), case['seed'])]
+        lines = ['%s new%s %d %d %s %s %s %s %d' % (p, kind, case['nx'], case['ny'], rat(case['vel'][0]), rat(case['vel'][1]),
+                                                   rat(case['cn2']), rat(case['L0']), case['seed'])]
     else:
-        lines = ['%s new %d %d %s %s %s %s %s %s %d' % (p, case['nx'], case['ny'], rat(case['dx']), rat(case['dy']),
-                                                       rat(case['vel'][0]), rat(case['vel'][1]), rat(case['cn2']),
-                                                       rat(case['L0']), case['seed'])]
+        lines = ['%s new%s %d %d %s %s %s %s %s %s %d' % (p, kind, case['nx'], case['ny'], rat(case['dx']), rat(case['dy']),
+                                                         rat(case['vel'][0]), rat(case['vel'][1]), rat(case['cn2']),
+                                                         rat(case['L0']), case['seed'])]
     idx = []
     for op, o in zip(case['ops'], obs):
         if op[0] in ('evolve', 'sett'):
@@ -430,9 +540,72 @@ def layer_lines(case, obs):
             idx.append(len(lines)); lines.append('%s setl0 %s' % (p, rat(op[1])))
         elif op[0] == 'setvel':
             idx.append(len(lines)); lines.append('%s setvel %s %s' % (p, rat(op[1][0]), rat(op[1][1])))
+        elif op[0] == 'cdraw' and heap:
+            idx.append(len(lines)); lines.append('%s cdraw %d' % (p, int(op[1]) * CDRAW_STRIDE))
+        elif op[0] == 'read' and heap and case['kind'] == 'finite' and o['status'] == 'ok':
+            idx.append(len(lines)); lines.append('%s read' % p)
         else:
             idx.append(None)
     return lines, idx
+
+
+def extra_lines(case, obs):
+    """free-standing model evaluations on numbers taken from the run: numeric extrusions (`arExtrude` on the real A, B,
+    stencil, normals, screen), the same extrusion on labels (`extrude`: where the old floats go) and `phase_for`
+    (`phaseFor` on pixels of the achromatic screen)"""
+    lines, want = [], []
+    mat = lambda M: ';'.join(rat_list([float(x) for x in row]) for row in M)
+    for o in obs:
+        for cap in o.get('ar', []):
+            lines.append('C15 arext %s %d %d %s %s [%s] %s %s %s' % (
+                cap['w'], case['nx'], case['ny'], rat(cap['amp']), rat_list([float(x) for x in cap['before']]),
+                ','.join(str(i) for i in cap['idx']), rat_list([float(x) for x in cap['rnd']]), mat(cap['A']), mat(cap['B'])))
+            want.append(('ar', cap))
+            # the list surgery alone, on labels: old samples 0..n-1, the new row/column n..n+k-1
+            n = case['nx'] * case['ny']
+            kk = case['ny'] if cap['w'] in ('left', 'right') else case['nx']
+            lines.append('C15 extrude %s %d %d [%s] [%s]' % (cap['w'], case['nx'], case['ny'], ','.join(str(n + i) for i in range(kk)),
+                                                           ','.join(str(i) for i in range(n))))
+            want.append(('ext', cap))
+    n = 0
+    for o in obs:
+        if o['op'][0] == 'read' and o['status'] == 'ok' and float(o['op'][1]) != 1.0 and n < 2:
+            n += 1
+            flat1, flat = o['phase1'].ravel(), o['phase'].ravel()
+            for j in (0, flat1.size // 2, flat1.size - 1):
+                lines.append('C15 phasefor %s %s' % (rat(float(flat1[j])), rat(float(o['op'][1]))))
+                want.append(('phasefor', (float(flat[j]), float(flat1[j]), float(o['op'][1]))))
+    return lines, want
+
+
+def compare_extra(ctx, case, want, out):
+    for (kind, w), resp in zip(want, out):
+        ctx.traces_validated += 1
+        if not resp.startswith('ok '):
+            ctx.disagree('C15 ' + kind, {'case': case, 'model': resp[:100], 'impl': 'a value'}); return
+        if kind == 'ar':
+            got = np.array([float(x) for x in parse_rat_list(resp.split()[1])])
+            ref = w['after']
+            ctx.count('infinite:numeric extrusions run by the model (arExtrude)')
+            if got.size != ref.size or np.abs(got - ref).max() > TOL * max(float(np.abs(ref).max()), 1e-300):
+                j = int(np.argmax(np.abs(got - ref))) if got.size == ref.size else -1
+                ctx.disagree('C15 arext', {'case': case, 'where': w['w'], 'flat_index': j,
+                                           'model': 'A.stencil + B.normals*sqrt(Cn^2), then the stacking: %r' % (got[j] if j >= 0 else got.size),
+                                           'impl': '%r' % (ref[j] if j >= 0 else ref.size)}, key='inf-extrude-numeric'); return
+        elif kind == 'ext':
+            perm = [int(x) for x in parse_rat_list(resp.split()[1])]
+            before, after = w['before'], w['after']
+            ctx.count('infinite:extrusions re-done by the model on labels (extrude)')
+            bad = len(perm) != after.size or any(after[j] != before[q] for j, q in enumerate(perm) if q < before.size)
+            if bad:
+                ctx.disagree('C15 extrude', {'case': case, 'where': w['w'], 'model': 'old samples move to %r...' % perm[:12],
+                                             'impl': 'the floats of the screen before the extrusion are elsewhere'}, key='inf-extrude-surgery'); return
+        else:
+            got = float(Fraction(resp.split()[1]))
+            ctx.count('phase_for pixels run by the model (phaseFor)')
+            if abs(got - w[0]) > 4e-16 * abs(got):
+                ctx.disagree('C15 phasefor', {'case': case, 'model': 'a/lambda = %r' % got, 'impl': 'phase_for(%r) = %r at a pixel where phase_for(1) = %r' % (w[2], w[0], w[1])},
+                             key='wavelength'); return
 
 
 def parse_kv(resp):
@@ -447,6 +620,8 @@ def compare_layer(ctx, case, obs, out, idx):
     owner = {}       # float -> symbolic sample
     hist = 0
     sub = [Fraction(0), Fraction(0)]
+    heap = bool(case.get('heap'))
+    shown = []       # finite heap cases: (model's key of what a read shows, the screen read)
     for o, i in zip(obs, idx):
         if i is None:
             if case['kind'] == 'infinite' and o['op'][0] == 'read' and o['status'] == 'ok' and 'raw' in o:
@@ -484,6 +659,25 @@ def compare_layer(ctx, case, obs, out, idx):
         if 'sub' in kv:
             sub = parse_rat_list(kv['sub'])
         rng_m.append((kv['rng'], kv['orig'])); rng_r.append((o['rng'], o['orig']))
+        if case['kind'] == 'finite':
+            # the noise realisation: the stream state `_make_noise` last drew from joins the state classes, the parameters
+            # it used are compared exactly
+            rng_m.append((kv['noise'],)); rng_r.append((o['noise'][0],))
+            if [Fraction(o['noise'][1]), Fraction(o['noise'][2])] != parse_rat_list(kv['npar']):
+                ctx.disagree(stream, dict(detail, impl='noise made with Cn^2=%r L0=%r' % (o['noise'][1], o['noise'][2]))); return
+        if heap:
+            if kv['al'] != o['al']:
+                ctx.disagree(stream, dict(detail, impl='identities (rng is orig, orig is caller, rng is caller) = %s' % o['al'])); return
+            if (kv['caller'] == '-') != (o['caller'] is None):
+                ctx.disagree(stream, dict(detail, impl='caller generator %s' % ('absent' if o['caller'] is None else 'present'))); return
+            if o['caller'] is not None:
+                rng_m.append((kv['caller'],)); rng_r.append((o['caller'],))
+            if case['kind'] == 'finite':
+                if kv['valid'] != '%d' % o['valid'] or kv['cache'] != '%d' % o['cache']:
+                    ctx.disagree(stream, dict(detail, impl='_noise %s, _achromatic_screen %s' % (
+                        'present' if o['valid'] else 'None', 'present' if o['cache'] else 'None')), key='fin-lazy'); return
+                if o['op'][0] == 'read':
+                    shown.append((kv['shown'], o['phase1']))
         if case['kind'] == 'infinite':
             if o['op'][0] == 'reset':
                 hist = 0
@@ -507,6 +701,15 @@ def compare_layer(ctx, case, obs, out, idx):
                 if values.setdefault(s, v) != v or owner.setdefault(v, s) != s:
                     ctx.disagree(stream, dict(detail, model='sample %s' % s,
                                               impl='the floats do not sit where the model puts the samples')); return
+    # what the reads showed: the same model key (noise state, parameters of the noise, centre) <=> bit-equal screens
+    # (keys that differ only in the centre are not demanded to give different screens: still wind, whole periods)
+    for a in range(len(shown)):
+        for b in range(a):
+            ka, kb = shown[a][0], shown[b][0]
+            same = np.array_equal(shown[a][1], shown[b][1])
+            if ka == kb and not same or (ka.split('|')[:3] != kb.split('|')[:3] and same):
+                ctx.disagree(stream, {'case': case, 'model': 'reads show %s and %s' % (kb, ka),
+                                      'impl': 'screens %s' % ('bit-equal' if same else 'different')}, key='fin-lazy'); return
     # stream-state identities: the model says two states are equal exactly when the real generators are bit-equal
     flat_m = [x for pair in rng_m for x in pair]
     flat_r = [x for pair in rng_r for x in pair]
@@ -568,15 +771,95 @@ def judge_noise(case):
         else:
             parts = [(noise.C_1, sh.C_1, noise.coords_1), (noise.C_2, sh.C_2, noise.coords_2)]
         obs = [(np.array(c0), np.array(c1), [np.array(k, dtype=float) for k in coords]) for c0, c1, coords in parts]
+        case_synth = synth_observation(case, g, fac, noise, orig)
+        if case_synth is not None:
+            obs = SynthObs(obs)
+            obs.synth = case_synth
     return bad, obs, counts
 
 
+class SynthObs(list):
+    synth = None
+
+
+SYNTH_MAX_M = 256
+SYNTH_MAX_WORK = 12000      # points x coefficients
+
+
+def _lcm(a, b):
+    from math import gcd
+    return a * b // gcd(a, b)
+
+
+def synth_observation(case, g, fac, noise, screen):
+    """What `Shift.synth` needs to reproduce `noise()` exactly: the output points, and per Fourier grid (one for the FFT
+    noise, two for the multiscale noise) the frequency axes in *turns per unit length* as exact rationals (validated
+    against the real grid's floats to 1e-12) and the real coefficients times the real quadrature weight / (2 pi)^2.
+    None if the case is too big for the exact character (M = common denominator of all phases, in turns)."""
+    if case['cls'] == 'fft':
+        parts = [(noise.C, fac.input_grid)]
+    else:
+        parts = [(noise.C_1, fac.input_grid_1), (noise.C_2, fac.input_grid_2)]
+    xs, ys = [[Fraction(float(v)) for v in ax] for ax in g.separated_coords]
+    M, out = 4, []
+    for C, ig in parts:
+        if not ig.is_separated:
+            return None
+        axes = []
+        for ax, pts in zip(ig.separated_coords, (xs, ys)):
+            fr = [Fraction(float(v) / (2 * np.pi)).limit_denominator(1 << 16) for v in ax]
+            if any(abs(float(f) * 2 * np.pi - float(v)) > 1e-12 * max(1.0, float(np.abs(ax).max())) for f, v in zip(fr, ax)):
+                return None
+            for f in fr:
+                for x in pts:
+                    M = _lcm(M, (f * x).denominator)
+                    if M > SYNTH_MAX_M:
+                        return None
+            axes.append(fr)
+        c = np.array(C) * ig.weights / (2 * np.pi) ** 2
+        if c.size != len(axes[0]) * len(axes[1]) or c.size * len(xs) * len(ys) > SYNTH_MAX_WORK:
+            return None
+        out.append((axes[0], axes[1], [float(v) for v in c.real], [float(v) for v in c.imag]))
+    return {'M': M, 'xs': xs, 'ys': ys, 'parts': out, 'screen': np.array(screen, dtype=float).ravel()}
+
+
 def noise_lines(case, obs):
-    return ['C15 phases %s %s %s %s' % (rat(case['shift'][0]), rat(case['shift'][1]), rat_list(kx), rat_list(ky))
-            for (_, _, (kx, ky)) in obs]
+    lines = ['C15 phases %s %s %s %s' % (rat(case['shift'][0]), rat(case['shift'][1]), rat_list(kx), rat_list(ky))
+             for (_, _, (kx, ky)) in obs]
+    sy = getattr(obs, 'synth', None)
+    if sy is not None:
+        for kx, ky, cre, cim in sy['parts']:
+            lines.append('C15 synth %d %s %s %s %s %s %s' % (sy['M'], rat_list(sy['xs']), rat_list(sy['ys']), rat_list(kx), rat_list(ky),
+                                                            rat_list(cre), rat_list(cim)))
+    return lines
+
+
+def compare_synth(ctx, case, sy, out):
+    """`fourier.backward(C).real` of the real factory against `Shift.synth` run by the model with the exact character into
+    Q[Z/M]: the model's coefficient vector per point is evaluated at X = exp(2 pi i / M) here."""
+    M = sy['M']
+    zeta = np.exp(2j * np.pi * np.arange(M) / M)
+    tot = np.zeros(sy['screen'].size)
+    for resp in out:
+        ctx.traces_validated += 1
+        if not resp.startswith('ok '):
+            ctx.disagree('C15 synth', {'case': case, 'model': resp[:100], 'impl': 'a screen'}, key='noise-synthesis'); return
+        rows = [parse_rat_list(t) for t in resp.split()[1].split(';')]
+        if len(rows) != tot.size or any(len(r) != M for r in rows):
+            ctx.disagree('C15 synth', {'case': case, 'model': '%d points' % len(rows), 'impl': '%d points' % tot.size}, key='noise-synthesis'); return
+        tot += np.array([(np.array([float(a) for a in r]) * zeta).sum().real for r in rows])
+    ctx.count('noise:screens synthesised by the model (synth, exact character of order M)')
+    ctx.count('noise:synth M <= 32' if M <= 32 else 'noise:synth M <= 128' if M <= 128 else 'noise:synth M > 128')
+    ref = sy['screen']
+    if np.abs(tot - ref).max() > TOL * float(np.abs(ref).max()):
+        j = int(np.argmax(np.abs(tot - ref)))
+        ctx.disagree('C15 synth', {'case': case, 'flat_index': j, 'model': 'sum_j C_j w/(2pi)^2 chi(kx x + ky y), real part = %r' % tot[j],
+                                   'impl': 'noise() = %r' % ref[j]}, key='noise-synthesis')
 
 
 def compare_noise(ctx, case, obs, out):
+    if getattr(obs, 'synth', None) is not None:
+        compare_synth(ctx, case, obs.synth, out[len(obs):])
     for (c0, c1, _), resp in zip(obs, out):
         ctx.traces_validated += 1
         S = np.array([float(x) for x in parse_rat_list(resp.split()[1])])
@@ -621,6 +904,59 @@ def gen_wind(rng, dx, dy):
     elif abs(a) == abs(b):
         a = a + (1 if a > 0 else -1)
     return [a * dx, b * dy]
+
+
+def decorate(rng, case, live=True):
+    """which model runs the case (value-level `fin`/`inf` or heap-level `hfin`/`hinf`), how the seed arrives (int or a
+    Generator object the caller keeps and draws from), parameter changes on the *running* finite layer"""
+    ops = case['ops']
+    case['heap'] = bool(rng.random() < 0.5)
+    if case['kind'] == 'infinite' and case['nx'] * case['ny'] <= 120 and rng.random() < 0.3:
+        case['ar'] = True        # the first three extrusions are re-computed by the model from the real A, B, stencil, normals
+    if case['heap'] and rng.random() < 0.45:
+        case['seedobj'] = 'bitgen' if case['seed'] % 3 == 0 else True
+        resets = [i for i, op in enumerate(ops) if op[0] == 'reset']
+        for _ in range(int(rng.integers(1, 4))):
+            # mostly just before a reset (where a shared generator shows), else anywhere
+            pos = int(rng.choice(resets)) if resets and rng.random() < 0.6 else int(rng.integers(0, len(ops) + 1))
+            ops.insert(pos, ['cdraw', int(rng.integers(1, 6))])
+            resets = [i for i, op in enumerate(ops) if op[0] == 'reset']
+    if case['kind'] == 'infinite' and live and rng.random() < 0.35:
+        # Cn^2 / outer scale changed on the *running* infinite layer (no reset): the screen stays, later rows/columns use the new values
+        ext = max(case['nx'] * case['dx'], case['ny'] * case['dy'])
+        for _ in range(int(rng.integers(1, 3))):
+            pos = int(rng.integers(0, len(ops) + 1))
+            kind_ = str(rng.choice(['setcn2', 'setcn2', 'setl0', 'setcn2m']))
+            if kind_ == 'setcn2':
+                new = [['setcn2', float(rng.integers(1, 64)) * 2.0 ** -44 * float(rng.choice([1.0, 4.0, 0.25]))]]
+            elif kind_ == 'setcn2m':
+                new = [['setcn2m', float(rng.integers(1, 64)) * 2.0 ** -42]]
+            else:
+                new = [['setl0', float(rng.choice([3.0, 6.0, 12.0, 20.0])) * ext / 4.0, str(rng.choice(['L0', 'outer_scale', 'multi']))]]
+            if rng.random() < 0.6:
+                new.append(['read', 1.0])
+            ops[pos:pos] = new
+        case['live'] = True
+    if case['heap'] and case['kind'] == 'finite' and live and rng.random() < 0.5:
+        ext = max(case['nx'] * case['dx'], case['ny'] * case['dy'])
+        for _ in range(int(rng.integers(1, 4))):
+            pos = int(rng.integers(0, len(ops) + 1))
+            kind_ = str(rng.choice(['setcn2', 'setcn2', 'setl0', 'setvel', 'setcn2m']))
+            if kind_ == 'setcn2':
+                new = [['setcn2', float(rng.integers(1, 64)) * 2.0 ** -44 * float(rng.choice([1.0, 4.0, 0.25]))]]
+            elif kind_ == 'setcn2m':
+                new = [['setcn2m', float(rng.integers(1, 64)) * 2.0 ** -42]]
+            elif kind_ == 'setl0':
+                new = [['setl0', float(rng.choice([3.0, 6.0, 12.0, 20.0])) * ext / 4.0, str(rng.choice(['L0', 'outer_scale', 'multi']))]]
+            else:
+                new = [['setvel', gen_wind(rng, case['dx'], case['dy'])]]
+            if rng.random() < 0.6:
+                new.append(['read', 1.0])                  # read with the change pending (cached screen / lazy re-draw)
+            if rng.random() < 0.6:
+                t = float(rng.integers(0, 5)) + (0.25 if rng.random() < 0.3 else 0.0)
+                new += [['evolve', t], ['read', float(rng.choice([1.0, 0.5]))]]
+            ops[pos:pos] = new
+    return case
 
 
 def gen_layer_case(rng, kind, big):
@@ -676,8 +1012,10 @@ def gen_layer_case(rng, kind, big):
                 ops.append(['reset', bool(rng.random() < 0.15)])
             else:
                 ops.append(['reset', bool(rng.random() < 0.25)])
+            if kind == 'infinite' and not ops[-1][1] and len(ops) % 3 == 0:
+                ops[-1] = ['reset', False, 'none']      # the same reset through evolve_until(None)
     case['ops'] = ops
-    return case
+    return decorate(rng, case)
 
 
 def gen_late_case(rng, kind, style, big):
@@ -722,7 +1060,7 @@ def gen_late_case(rng, kind, style, big):
             else:
                 ops.append(['evolve', t0 + i * dt, 'q'])
     case['ops'] = ops
-    return case
+    return decorate(rng, case, live=False)
 
 
 def gen_cross_case(rng, kind, big):
@@ -763,11 +1101,14 @@ def gen_cross_case(rng, kind, big):
     ops += [['reset', False], ['evolve', ops[-2][1]], ['read', 1.0]]
     case['ops'] = ops
     case['extents'] = ms
-    return case
+    return decorate(rng, case, live=False)
 
 
 def gen_noise_case(rng, big):
     nx, ny, dx, dy = gen_geometry(rng, big)
+    if rng.random() < 0.4:
+        # small grids: the model synthesises the whole screen with the exact character (`synth`)
+        nx, ny = int(rng.integers(2, 8)), int(rng.integers(2, 8))
     cls = str(rng.choice(['fft', 'multiscale']))
     vel = gen_wind(rng, dx, dy)
     m = float(rng.integers(1, 3)) if rng.random() < 0.6 else float(rng.integers(1, 12)) / 4.0
@@ -828,6 +1169,34 @@ DIRECTED = [
                                               ['evolve', 17.0], ['read', 1.0]], dx=0.25, dy=0.5), style='crossing'),
     dict(_layer('infinite', 8, 6, [-0.25, 0.0], [['read', 1.0], ['evolve', 7.0], ['read', 1.0], ['evolve', 9.0], ['read', 1.0], ['evolve', 15.0], ['read', 1.0],
                                                  ['evolve', 17.0], ['read', 1.0]]), style='crossing'),
+    # generators as heap cells: the seed is a Generator object the caller keeps drawing from
+    dict(_layer('finite', 6, 5, [0.25, 0.0], [['read', 1.0], ['evolve', 1.0], ['read', 1.0], ['cdraw', 3], ['reset', False], ['read', 1.0],
+                                              ['evolve', 1.0], ['read', 1.0], ['reset', True], ['read', 1.0], ['cdraw', 1], ['reset', False], ['read', 1.0]]),
+         heap=True, seedobj=True),
+    dict(_layer('infinite', 6, 5, [0.25, 0.0], [['read', 1.0], ['evolve', 1.0], ['read', 1.0], ['cdraw', 2], ['reset', False], ['read', 1.0],
+                                                ['evolve', 1.0], ['read', 1.0], ['reset', True], ['evolve', 2.0], ['read', 1.0], ['cdraw', 1],
+                                                ['reset', False], ['evolve', 2.0], ['read', 1.0]]), heap=True, seedobj=True),
+    dict(_layer('infinite', 5, 7, [0.0, -0.25], [['evolve', 2.0], ['read', 1.0], ['reset', False], ['evolve', 2.0], ['read', 1.0]]), heap=True, ar=True),
+    _layer('infinite', 5, 6, [0.25, -0.25], [['evolve', 2.0], ['read', 1.0], ['reset', False, 'none'], ['read', 1.0], ['evolve', 2.0], ['read', 1.0]]),
+    dict(_layer('infinite', 5, 5, [0.25, 0.0], [['read', 1.0], ['cdraw', 2], ['evolve', 1.0], ['read', 1.0], ['cdraw', 1], ['reset', False], ['read', 1.0],
+                                                ['evolve', 1.0], ['read', 1.0]]), heap=True, seedobj='bitgen'),
+    dict(_layer('finite', 5, 6, [0.0, 0.25], [['read', 1.0], ['cdraw', 2], ['reset', False], ['read', 1.0], ['setcn2', 2.0 ** -40], ['cdraw', 1], ['read', 1.0],
+                                              ['evolve', 1.0], ['read', 1.0]]), heap=True, seedobj='bitgen'),
+    # parameter changes on the running infinite layer
+    dict(_layer('infinite', 7, 5, [0.25, 0.0], [['evolve', 1.0], ['read', 1.0], ['setcn2', 2.0 ** -38], ['read', 1.0], ['evolve', 3.0], ['read', 1.0],
+                                                ['setl0', 4.0, 'outer_scale'], ['evolve', 4.0], ['read', 0.5], ['reset', False], ['evolve', 1.0], ['read', 1.0]], k=2.0), ar=True),
+    dict(_layer('infinite', 5, 6, [0.0, -0.25], [['setcn2', 2.0 ** -39], ['evolve', 2.0], ['read', 1.0], ['setcn2', 2.0 ** -40], ['setcn2', 2.0 ** -41], ['evolve', 3.0],
+                                                 ['read', 1.0], ['reset', True], ['evolve', 2.0], ['read', 1.0]], k=3.0), heap=True),
+    dict(_layer('infinite', 6, 4, [0.25, 0.25], [['evolve', 1.0], ['read', 0.5], ['setcn2', 2.0 ** -38], ['reset', False], ['evolve', 1.0], ['read', 2.0]]), ar=True),
+    dict(_layer('infinite', 4, 6, [-0.25, 0.0], [['evolve', 3.0], ['read', 1.0]], interp=True), ar=True),
+    # the finite layer's lazy noise and cached screen: parameter changes on the running layer
+    dict(_layer('finite', 6, 6, [0.25, 0.0], [['read', 1.0], ['setcn2', 2.0 ** -38], ['read', 1.0], ['evolve', 1.0], ['read', 1.0],
+                                              ['setl0', 4.0, 'outer_scale'], ['evolve', 2.0], ['read', 1.0], ['setvel', [0.0, 0.25]], ['read', 1.0],
+                                              ['evolve', 3.0], ['read', 1.0], ['setcn2', 2.0 ** -39], ['setcn2', 2.0 ** -40], ['reset', False],
+                                              ['read', 1.0], ['evolve', 3.0], ['read', 1.0]]), heap=True),
+    dict(_layer('finite', 5, 8, [0.0, 0.25], [['evolve', 1.0], ['setcn2m', 2.0 ** -39], ['evolve', 1.0], ['read', 1.0], ['read', 2.0],
+                                              ['setcn2', 2.0 ** -41], ['reset', True], ['read', 1.0], ['setl0', 5.0, 'L0'], ['evolve', 2.0],
+                                              ['read', 1.0]], k=2.0), heap=True, seedobj=True),
     {'kind': 'noise', 'cls': 'multiscale', 'nx': 8, 'ny': 6, 'dx': 0.25, 'dy': 0.25, 'q': 2, 'L0': 10.0, 'seed': 3, 'shift': [2.25, 0.0]},
     {'kind': 'noise', 'cls': 'multiscale', 'nx': 8, 'ny': 6, 'dx': 0.25, 'dy': 0.5, 'q': 2, 'L0': 10.0, 'seed': 3, 'shift': [4.0, -3.0]},
     {'kind': 'noise', 'cls': 'fft', 'nx': 6, 'ny': 8, 'dx': 0.25, 'dy': 0.25, 'q': 2, 'L0': 10.0, 'seed': 3, 'shift': [0.0, 10.25]},
@@ -836,6 +1205,11 @@ DIRECTED = [
     {'kind': 'noise', 'cls': 'fft', 'nx': 6, 'ny': 9, 'dx': 0.25, 'dy': 0.5, 'q': 2, 'L0': 10.0, 'seed': 3, 'shift': [0.5, 0.5]},
     {'kind': 'noise', 'cls': 'multiscale', 'nx': 9, 'ny': 6, 'dx': 0.25, 'dy': 0.25, 'q': 2, 'L0': 10.0, 'seed': 3, 'shift': [0.0, -0.5]},
     {'kind': 'noise', 'cls': 'multiscale', 'nx': 8, 'ny': 8, 'dx': 0.25, 'dy': 0.25, 'q': 4, 'L0': 10.0, 'seed': 3, 'shift': [0.3125, 0.0]},
+    # small grids, synthesised by the model point by point (even/odd sizes, anisotropic pixels, oversampled FFT, both multiscale factors)
+    {'kind': 'noise', 'cls': 'fft', 'nx': 4, 'ny': 4, 'dx': 0.25, 'dy': 0.25, 'q': 1, 'L0': 10.0, 'seed': 5, 'shift': [0.25, 0.0]},
+    {'kind': 'noise', 'cls': 'fft', 'nx': 3, 'ny': 5, 'dx': 0.5, 'dy': 0.125, 'q': 3, 'L0': 10.0, 'seed': 5, 'shift': [0.5, 0.125]},
+    {'kind': 'noise', 'cls': 'multiscale', 'nx': 5, 'ny': 4, 'dx': 0.25, 'dy': 0.5, 'q': 2, 'L0': 10.0, 'seed': 5, 'shift': [0.0, 0.5]},
+    {'kind': 'noise', 'cls': 'multiscale', 'nx': 6, 'ny': 3, 'dx': 1.0, 'dy': 1.0, 'q': 4, 'L0': 10.0, 'seed': 5, 'shift': [1.5, -1.0]},
 ]
 
 
@@ -861,7 +1235,13 @@ def handle(ctx, case, batch):
         if case.get('style'):
             ctx.count('%s:%s' % (case['kind'], case['style']))
             ctx.count('%s:late small steps' % case['kind'], sum(1 for op in case['ops'] if op[0] == 'evolve') - 1)
+        ctx.count('%s:model %s' % (case['kind'], 'heap (hfin/hinf)' if case.get('heap') else 'value (fin/inf)'))
+        if case.get('seedobj'):
+            ctx.count('%s:seed is a %s object' % (case['kind'], 'BitGenerator' if case['seedobj'] == 'bitgen' else 'Generator'))
+            ctx.count('%s:caller draws' % case['kind'], sum(1 for op in case['ops'] if op[0] == 'cdraw'))
         ctx.count('%s:parameter setters' % case['kind'], sum(1 for op in case['ops'] if op[0] in SET_OPS))
+        if case.get('live'):
+            ctx.count('%s:cases with Cn^2 / L0 changed on the running layer' % case['kind'])
         ctx.count('%s:pixels %s' % (case['kind'], 'square' if case['dx'] == case['dy'] else 'non-square (dx != dy)'))
         # accumulated displacement in grid extents, and consecutive reads that straddle a multiple of the extent
         mx, last, strad, on = 0.0, None, 0, 0
@@ -885,6 +1265,7 @@ def handle(ctx, case, batch):
         ctx.count('%s:reads exactly on a multiple of the extent' % case['kind'], on)
         ctx.count('%s:resets' % case['kind'], nres)
         ctx.count('%s:independent resets' % case['kind'], sum(1 for op in case['ops'] if op[0] == 'reset' and op[1]))
+        ctx.count('%s:resets through evolve_until(None)' % case['kind'], sum(1 for op in case['ops'] if op[0] == 'reset' and len(op) > 2))
         if case['kind'] == 'infinite':
             ctx.count('infinite:interpolation %s' % ('on' if case['interp'] else 'off'))
             ctx.count('infinite:extrusions', sum(len(o['ext']) for o in obs))
@@ -901,7 +1282,8 @@ def handle(ctx, case, batch):
         batch.append((case, obs, lines, None))
     else:
         lines, idx = layer_lines(case, obs)
-        batch.append((case, obs, lines, idx))
+        xl, want = extra_lines(case, obs)
+        batch.append((case, obs, lines + xl, (idx, len(lines), want)))
 
 
 def run(ctx):
@@ -949,7 +1331,9 @@ def run(ctx):
         if case['kind'] == 'noise':
             compare_noise(ctx, case, obs, o)
         else:
-            compare_layer(ctx, case, obs, o, idx)
+            idx, nl, want = idx
+            compare_layer(ctx, case, obs, o[:nl], idx)
+            compare_extra(ctx, case, want, o[nl:])
 
 
 def replay(ctx, case):
